@@ -36,7 +36,7 @@ RULE = ("Scenario = (user-object kind x how tensors are held x which require gra
         "functional_call reparametrisation; between operations the caller may rebind a tensor or freeze a Parameter into a "
         "buffer / plain attribute; one scenario in twelve is a dense operator in the exact solver with LAPACK failing once]). One fault-free reference execution counts the N entries "
         "into the user's callees; then one faulted execution per crash point k (quick: k in {1,2,3,N-1,N} + 8 "
-        "drawn; thorough: every k in 1..N) with InjectedFault(Exception) or InjectedAbort(BaseException); "
+        "drawn; thorough: every k in 1..N) with InjectedFault(Exception), InjectedAbort(BaseException) or a domain-error class (ValueError / RuntimeError / FloatingPointError); "
         "then, when the history makes M > 0 internal dense solves (torch.linalg.solve: exact solver, implicit backward of the root finders, "
         "eigenpair gradients), up to 3 (quick) / 12 (thorough) more executions in which the j-th of them raises LAPACK's error once "
         "(xitorch either rescues the call or the error reaches the caller; the state invariants apply in both cases, retry-equals-reference only in the second). "
@@ -196,7 +196,9 @@ def draw_functional(cs, sc):
         spec["ts_grad"] = cs.bool("ts_grad", 1, 3)
         spec["decreasing"] = cs.bool("decreasing", 1, 4)
     elif F == "quad":
-        spec["limits"] = cs.choice(["numbers", "tensors", "tensor_grad", "inf"], "lim")
+        # "inf_tensors": an infinite boundary given as a tensor (with python numbers quad's own backward raises, which
+        # belongs to another property, so the backward usages of an infinite integral would never be judged)
+        spec["limits"] = cs.choice(["numbers", "tensors", "tensor_grad", "inf", "inf_tensors"], "lim")
     elif F == "mcquad":
         spec["method"] = cs.choice(["mhcustom", "mh", "_dummy1d"], "m")
     elif F == "jac":
@@ -469,6 +471,8 @@ def run_functional(env, spec):
             xl_, xu_ = torch.tensor(0.0, dtype=AC.DT), torch.tensor(1.0, dtype=AC.DT)
         elif lim == "tensor_grad":
             xl_, xu_ = torch.tensor(0.0, dtype=AC.DT), torch.tensor(1.0, dtype=AC.DT).requires_grad_()
+        elif lim == "inf_tensors":
+            xl_, xu_ = torch.tensor(0.0, dtype=AC.DT), torch.tensor(float("inf"), dtype=AC.DT)
         else:
             xl_, xu_ = 0.0, float("inf")
         y = xi.quad(f, xl_, xu_, params=PS(s), n=kn.get("n", 4))
@@ -701,12 +705,13 @@ def execute(sc, plan, reference=None, collect=None, linalg_j=0):
     SIM.observers.append(observer)
 
     class _InternalFailure(FaultyLinalgSolve):
-        """an internal call that usually succeeds - the j-th torch.linalg.solve of the whole history, wherever it is
-        made (exact solver, implicit backward of a root finder, eigenpair gradients) - fails once with LAPACK's error"""
+        """an internal call that usually succeeds - the j-th dense LAPACK call (solve / cholesky / eigh / qr / inverse) of
+        the whole history, wherever it is made (exact solver, implicit backward of a root finder, eigenpair gradients,
+        orthogonalisation and Rayleigh-Ritz steps of the eigensolvers) - fails once with LAPACK's error"""
         def __call__(self_, *a, **kw):
             if self_.k and self_.n + 1 == self_.k:
                 subst = any(idents(a_) != sn0.ident_tuple() for a_, sn0 in zip(env.actors, init_snaps))
-                info["fired"] = {"k": -self_.k, "kind": "internal_linalg_error", "probe": "torch.linalg.solve",
+                info["fired"] = {"k": -self_.k, "kind": "internal_linalg_error", "probe": "torch.linalg." + str(kw.get("_xsim_target", "solve")),
                                  "substituted": subst, "in_backward": state["in_bwd"], "debug": bool(is_debug_enabled()),
                                  "nest_depth": state["nest_depth"], "monitor_depth": len(mon.stack),
                                  "dbg_override": state["dbg_override"]}
@@ -967,6 +972,11 @@ def execute(sc, plan, reference=None, collect=None, linalg_j=0):
             # operation may legitimately differ from the fault-free execution; the state invariants still apply
             state["no_i6"] = True
             info["fired"]["rescued"] = True
+        elif fired_here and out.raised is None:
+            # the library absorbed the callee's failure and returned a result (nothing does today): its numbers may
+            # legitimately differ from the fault-free execution; the state invariants still apply
+            state["no_i6"] = True
+            info["fired"]["absorbed"] = True
         if fired_here and out.raised is not None:
             SIM.set_plan({})
             retry = OpOutcome()
@@ -1158,6 +1168,9 @@ def run(cs, cfg):
     decoded["faulted"] = []
     for k in ks:
         kind = "abort" if cs.bool("abort", 1, cfg["abort_den"]) else "raise"
+        if kind == "raise" and cs.bool("domain_error_class", 1, 5):
+            # the classes a domain check inside the user's function raises (and a library might be tempted to handle)
+            kind = ["value", "runtime", "fpe"][cs.draw(3, "domain_error_which")]
         r = execute(sc, {k: kind}, reference=ref["values"])
         evals += 1
         events += r["N"]
@@ -1181,7 +1194,8 @@ def run(cs, cfg):
             cnt("reach.fault_at_substitution_depth>=2")
         if fired.get("reached_caller_as") is None:
             cnt("fault_swallowed")
-        elif fired["reached_caller_as"] not in ("InjectedFault", "InjectedAbort"):
+        elif fired["reached_caller_as"] not in ("InjectedFault", "InjectedAbort", "ValueError", "RuntimeError",
+                                                "FloatingPointError"):
             cnt("fault_rewrapped")
         cnt("fault.retry_after_fault")
         F = functional_label(sc, fired.get("op", 0))
